@@ -2,6 +2,7 @@ package smt
 
 import (
 	"bufio"
+	"math"
 	"bytes"
 	"fmt"
 	"io"
@@ -561,18 +562,15 @@ func parseValues(txt string, m Model) {
 			default:
 				if n, err := strconv.ParseInt(v, 10, 64); err == nil {
 					m[name] = uint64(n)
+				} else if f, err := strconv.ParseFloat(v, 64); err == nil {
+					m[name] = uint64(int64(math.Round(f)))
 				}
 			}
 		case []interface{}:
-			// (- N)
-			if len(v) == 2 {
-				if s0, ok := v[0].(string); ok && s0 == "-" {
-					if s1, ok := v[1].(string); ok {
-						if n, err := strconv.ParseInt(s1, 10, 64); err == nil {
-							m[name] = uint64(-n)
-						}
-					}
-				}
+			// (- N), (/ a b) and nestings: numerals of Int/Real sort, rounded to the nearest integer
+			if f, ok := evalNumeral(v); ok {
+				m[name] = uint64(int64(math.Round(f)))
+				continue
 			}
 			// (_ bvN w)
 			if len(v) == 3 {
@@ -585,6 +583,55 @@ func parseValues(txt string, m Model) {
 			}
 		}
 	}
+}
+
+// evalNumeral evaluates (- x), (/ a b), (+ ...), (* ...) over decimal numerals.
+func evalNumeral(v interface{}) (float64, bool) {
+	switch t := v.(type) {
+	case string:
+		f, err := strconv.ParseFloat(strings.TrimSuffix(t, "?"), 64)
+		return f, err == nil
+	case []interface{}:
+		if len(t) < 2 {
+			return 0, false
+		}
+		op, ok := t[0].(string)
+		if !ok {
+			return 0, false
+		}
+		var xs []float64
+		for _, a := range t[1:] {
+			f, ok := evalNumeral(a)
+			if !ok {
+				return 0, false
+			}
+			xs = append(xs, f)
+		}
+		switch op {
+		case "-":
+			if len(xs) == 1 {
+				return -xs[0], true
+			}
+			return xs[0] - xs[1], true
+		case "/":
+			if len(xs) == 2 && xs[1] != 0 {
+				return xs[0] / xs[1], true
+			}
+		case "+":
+			r := 0.0
+			for _, x := range xs {
+				r += x
+			}
+			return r, true
+		case "*":
+			r := 1.0
+			for _, x := range xs {
+				r *= x
+			}
+			return r, true
+		}
+	}
+	return 0, false
 }
 
 func tokenize(s string) []string {
